@@ -482,6 +482,62 @@ func runC14(c *h.Ctx) {
 			}
 		}
 	}
+	// items that are not JSON values of the document - what the datetime
+	// methods yield - are non-arrays like any other: wrapped in lax mode,
+	// refused in strict mode
+	{
+		ddoc := `{"d":"2024-06-14","t":"12:34:56","z":"12:34:56+01:00","ts":"2024-06-14T12:34:56","tz":"2024-06-14T12:34:56+01:00","n":7,"s":"x"}`
+		heads := []string{"$.d.datetime()", "$.d.date()", "$.t.time()", "$.z.time_tz()", "$.ts.timestamp()", "$.tz.timestamp_tz()", "$.ts.datetime()", "$.n.double()", "$.s.type()", "$.n.string()", "$.tz.timestamp_tz().date()"}
+		subs := []struct {
+			s string
+			n int // how often the item is selected
+		}{{"[0]", 1}, {"[last]", 1}, {"[0 to last]", 1}, {"[0,0]", 2}, {"[0][last]", 1}, {"[1]", 0}, {"[0, 1, last]", 2}, {"[-1 to 0]", 1}, {"[0.9]", 1}}
+		for hi, hd := range heads {
+			for si, sb := range subs {
+				idx++
+				if !c.Mine(idx) {
+					continue
+				}
+				_ = hi
+				_ = si
+				for _, lax := range []bool{true, false} {
+					mode := map[bool]string{true: "", false: "strict "}[lax]
+					for _, tail := range []string{"", ".type()", ".string()"} {
+						pa, pb := cachedPath(mode+hd+sb.s+tail), cachedPath(mode+hd+tail)
+						if pa == nil || pb == nil {
+							c.Count("gen.unparsable", 1)
+							continue
+						}
+						oa := h.Call("query", pa, h.Decode(ddoc, false), h.Opts{TZ: true})
+						ob := h.Call("query", pb, h.Decode(ddoc, false), h.Opts{TZ: true})
+						c.Eval(2)
+						cs := h.Case{Kind: "nested", Path: mode + hd + sb.s + tail, Doc: ddoc, TZ: true}
+						if ob.Class != h.OK || len(ob.Items) != 1 || oa.Class == h.Panic {
+							continue
+						}
+						var want []string
+						for j := 0; j < sb.n; j++ {
+							want = append(want, h.CanonTyped(ob.Items[0]))
+						}
+						got := make([]string, len(oa.Items))
+						for j, it := range oa.Items {
+							got[j] = h.CanonTyped(it)
+						}
+						switch {
+						case lax && (oa.Class != h.OK || strings.Join(got, " | ") != strings.Join(want, " | ")):
+							c.Violate("lax.wrap", h.F("form", "method-result"), fmt.Sprintf("Query(%s) = %s; %s yields %s, which as a one-element array gives [%s]", cs.Path, oa.Summary(), hd+tail, ob.Summary(), strings.Join(want, " | ")), cs)
+						case !lax && oa.Class != h.Soft:
+							c.Violate("strict.bounds", h.F("cause", "unexplained", "mode", "strict", "form", "method-result"), fmt.Sprintf("Query(%s) = %s; a subscript on a non-array is a suppressible error in strict mode", cs.Path, oa.Summary()), cs)
+						case lax:
+							c.Held("lax.wrap")
+						default:
+							c.Held("strict.bounds")
+						}
+					}
+				}
+			}
+		}
+	}
 	// a subscript inside a filter may mention @: it is the filtered item, not
 	// the array being subscripted
 	rs := c.Rand("c14-current")
@@ -914,6 +970,9 @@ func runC14(c *h.Ctx) {
 	elemsAll := []string{"null", "0", "1", `"s"`, "[]", "[1,2]", "{}", `{"a":1}`, "true", "1.5", "-3"}
 	big := []bound{{text: "2147483647", val: 2147483647}, {text: "-2147483648", val: -2147483648}, {text: "100", val: 100}, {text: "-100", val: -100}, {text: "11.7", val: 11.7}, {text: "-1.9", val: -1.9}, {text: "2e1", val: 20}, {text: "1e0", val: 1},
 		{text: "2147483647.9", val: 2147483647.9}, {text: "-2147483648.5", val: -2147483648.5}, {text: "2147483646.5", val: 2147483646.5}, {text: "2147483647 + 0.5", val: 2147483647.5},
+		// fractions next to an integer: the position is still the truncation
+		{text: "1.9999999999", val: 1.9999999999}, {text: "-0.9999999999", val: -0.9999999999}, {text: "3.9999999999", val: 3.9999999999}, {text: "0.9999999999999999", val: 0.9999999999999999},
+		{text: "2.0000000001", val: 2.0000000001}, {text: "last - 0.0000000001", last: true, offset: -1e-10}, {text: "last + 0.9999999999", last: true, offset: 0.9999999999}, {text: "-0.0000000001", val: -1e-10}, {text: "5.999999999999", val: 5.999999999999},
 		// literals heading a chain: the subscript is what the chain yields
 		{text: "(-1).abs()", val: 1}, {text: "(1.9).floor()", val: 1}, {text: "(0.5).ceiling()", val: 1}, {text: "(2) ? (@ > 1)", val: 2}, {text: "(-2).abs().double()", val: 2}, {text: "(3).number()", val: 3}, {text: "(0).abs()", val: 0},
 		{text: `"4".integer()`, val: 4}, {text: "(5 - 3)", val: 2}, {text: "(-5).abs() - 3", val: 2}, {text: "(2.5).decimal(1,0)", val: 3}, {text: "(-0.5).ceiling()", val: 0}}
